@@ -47,19 +47,19 @@ def pawnMoves (g : Game) (all : Bool) (fromSq : Nat) : List Move :=
 def castlingMoves (g : Game) (all : Bool) : List Move :=
   if !all then [] else
   if g.white then
-    (if g.castling &&& 1 != 0 && isEmpty (g.allOcc &&& 6917529027641081856) &&
-        !isSquareAttacked g 60 false && !isSquareAttacked g 61 false
-     then [Move.mk' 60 62 WK PNONE false false false true] else []) ++
-    (if g.castling &&& 2 != 0 && isEmpty (g.allOcc &&& 1008806316530991104) &&
-        !isSquareAttacked g 60 false && !isSquareAttacked g 59 false
-     then [Move.mk' 60 58 WK PNONE false false false true] else [])
+    (if g.castling &&& Gen.CASTLE_WK_RIGHT != 0 && isEmpty (g.allOcc &&& Gen.CASTLE_WK_EMPTY) &&
+        !isSquareAttacked g Gen.CASTLE_WK_SAFE1 false && !isSquareAttacked g Gen.CASTLE_WK_SAFE2 false
+     then [Move.mk' Gen.CASTLE_WK_FROM Gen.CASTLE_WK_TO WK PNONE false false false true] else []) ++
+    (if g.castling &&& Gen.CASTLE_WQ_RIGHT != 0 && isEmpty (g.allOcc &&& Gen.CASTLE_WQ_EMPTY) &&
+        !isSquareAttacked g Gen.CASTLE_WQ_SAFE1 false && !isSquareAttacked g Gen.CASTLE_WQ_SAFE2 false
+     then [Move.mk' Gen.CASTLE_WQ_FROM Gen.CASTLE_WQ_TO WK PNONE false false false true] else [])
   else
-    (if g.castling &&& 4 != 0 && isEmpty (g.allOcc &&& 96) &&
-        !isSquareAttacked g 4 true && !isSquareAttacked g 5 true
-     then [Move.mk' 4 6 BK PNONE false false false true] else []) ++
-    (if g.castling &&& 8 != 0 && isEmpty (g.allOcc &&& 14) &&
-        !isSquareAttacked g 4 true && !isSquareAttacked g 3 true
-     then [Move.mk' 4 2 BK PNONE false false false true] else [])
+    (if g.castling &&& Gen.CASTLE_BK_RIGHT != 0 && isEmpty (g.allOcc &&& Gen.CASTLE_BK_EMPTY) &&
+        !isSquareAttacked g Gen.CASTLE_BK_SAFE1 true && !isSquareAttacked g Gen.CASTLE_BK_SAFE2 true
+     then [Move.mk' Gen.CASTLE_BK_FROM Gen.CASTLE_BK_TO BK PNONE false false false true] else []) ++
+    (if g.castling &&& Gen.CASTLE_BQ_RIGHT != 0 && isEmpty (g.allOcc &&& Gen.CASTLE_BQ_EMPTY) &&
+        !isSquareAttacked g Gen.CASTLE_BQ_SAFE1 true && !isSquareAttacked g Gen.CASTLE_BQ_SAFE2 true
+     then [Move.mk' Gen.CASTLE_BQ_FROM Gen.CASTLE_BQ_TO BK PNONE false false false true] else [])
 
 /-- moves of all pieces of one non-pawn kind: per piece, quiet moves (mode All) then captures -/
 def pieceMoves (g : Game) (all : Bool) (piece : Nat) (attacksOf : Nat → UInt64) : List Move :=
